@@ -47,6 +47,30 @@ def scenarios(ctx, rng):
           ent("k", old, {"time": "7"}), None)
         S("utf8-key-and-metadata", mode, W(ukey, new, {"metadata": umeta}), [W(ukey, old, {"time": "7"})], ukey,
           ent(ukey, old, {"time": "7"}), ent(ukey, new, {"metadata": umeta}))
+        def history_until(limit):
+            """Records for key k (last one = old) whose total size is the first to exceed `limit` bytes."""
+            out, total, g = [], 0, 0
+            last = len(ref.record_bytes(ref.entry_json("k", ref.sri("sha256", old), 7, len(old))))
+            while True:
+                d = b"gen-%d" % g
+                ln = len(ref.record_bytes(ref.entry_json("k", ref.sri("sha256", d), 100 + g, len(d))))
+                if total + ln + last > limit:
+                    break
+                out.append(W("k", d, {"time": str(100 + g)}))
+                total += ln
+                g += 1
+            # pad with one record sized so that the bucket ends just above the limit
+            return out + [W("k", old, {"time": "7", "metadata": {"pad": "p" * max(0, limit - total - last + 1)}})]
+
+        limits = [4096, 8192] if mode == "sync@astd" or not ctx.quick else []
+        if not ctx.quick:
+            limits.append(65536)
+        for lim in limits:
+            hl = history_until(lim)
+            oldent = ent("k", old, {"time": "7", "metadata": hl[-1]["opts"].get("metadata")})
+            S(f"overwrite-when-bucket-exceeds-{lim}", mode, W("k", new, {}), hl, "k", oldent, ent("k", new, {}))
+            if mode == "sync@astd":
+                S(f"remove-when-bucket-exceeds-{lim}", mode, {"op": "remove", "cache": "<C>", "key": "k"}, hl, "k", oldent, None)
         hist25 = [W("k", b"gen-%d" % g, {"time": str(100 + g)}) for g in range(24)] + [W("k", old, {"time": "7"})]
         S("overwrite-after-25-records", mode, W("k", new, {}), hist25, "k", ent("k", old, {"time": "7"}), ent("k", new, {}))
         if not ctx.quick or mode == "sync@astd":
